@@ -4,8 +4,9 @@ from ..prog import *
 from ..facts import AnalysisBroken
 from .. import dnsenc as E
 from ..dnsparse import linear
+from ..interp import normx, nkey, run_all
 
-UNITS = ["evdns"]
+UNITS = ["evdns", "evutil"]
 LEVEL = "other"
 EXPLANATION = ("K4: every write into the request buffer in evdns_request_data_build and dnsname_to_labels is dominated by a capacity test covering it; the "
                "single unguarded byte (the root name of the OPT record) is accepted only through a re-checked argument about its sole caller: the buffer is "
@@ -91,4 +92,52 @@ def run(ctx, config):
     if not okc:
         r.bad("K12:request_new:unchecked:evdns_request_data_build", "%s:%d" % (g.file, g.line), g.name, "a failed build is not detected")
     rules.append(r)
+    rules.append(rule_case(P))
     return rules
+
+
+def rule_case(P):
+    """0x20 randomisation may change nothing but the case bit of ASCII letters: evaluated for every byte value"""
+    r = Rule("C36-case", "K6", "case randomisation in request_new alters only the case of ASCII letters (all 256 byte values x both random bits)", floor=512)
+    f = P.fn("request_new")
+    sts = [(el, lhs, op) for el, lhs, op, rhs in f.stores() if op in ("|=", "&=", "^=", "=") and is_e(strip(lhs), "idx") and is_e(strip(strip(lhs)[1]), "var") and strip(strip(lhs)[1])[1] == "namebuf"]
+    if not sts:
+        r.brk("request_new: no store into namebuf[] found (case randomisation moved?)")
+        return r
+    iv = strip(strip(sts[0][1])[2])
+    if not is_e(iv, "var"):
+        r.brk("request_new: namebuf index is not a variable")
+        return r
+    # loop header: the `for` branch that dominates the stores and tests the index variable
+    hdr = [b for b in f.branch_blocks() if b.term.get("k") == "for" and any(eq(strip(q), iv) for q in walk(b.term["cond"])) and all(f.dominates(b.id, el.bid) for el, _, _ in sts)]
+    if len(hdr) != 1:
+        r.brk("request_new: randomisation loop not recognised")
+        return r
+    body = [s_ for s_, l in hdr[0].succ if l == "T"][0]
+    arr = ["var", "namebuf", "local"]
+    I = 3
+    kc = nkey(["idx", arr, ["int", I]])
+    nb = 0
+    for c in range(256):
+        sc = c if c < 128 else c - 256
+        letter = (65 <= c <= 90) or (97 <= c <= 122)
+        for bits in (0x00, 0xff):
+            env = {"#typed": 1, iv[1]: I, "name_len": 8, kc: sc, nkey(["idx", ["var", "randbits", "local"], ["int", 0]]): bits}
+            outs = run_all(f, (body, 0), env, lambda el: el.e[0] == "incdec" and eq(strip(el.e[3]), iv), P, lambda el, e_: None, max_steps=60)
+            for o in outs:
+                if o.kind != "stop":
+                    r.brk("request_new: loop body not evaluable for byte %#x: %s %s" % (c, o.kind, o.why))
+                    return r
+                got = o.env.get(kc)
+                got = None if got is None else got & 0xff
+                if letter:
+                    ok = got == ((c | 0x20) if bits else (c & ~0x20))
+                else:
+                    ok = got == c
+                r.inst((c, bits), {"byte": c, "random_bit": 1 if bits else 0, "result": got}, nontrivial=letter)
+                if not ok and nb < 6:
+                    nb += 1
+                    r.bad("K6:request_new:case-randomisation-alters-non-letter" if not letter else "K6:request_new:case-randomisation-letter", "%s:%d" % (f.file, sts[0][0].line), f.name,
+                          "byte %#04x %s with random bit %d becomes %s: %s" % (c, "(an ASCII letter)" if letter else "(not an ASCII letter)", 1 if bits else 0, hex(got) if got is not None else None,
+                                                                               "only the case of ASCII letters may change; the question on the wire would ask for a different name" if not letter else "the letter's case must follow the random bit and nothing else may change"))
+    return r
